@@ -7,6 +7,7 @@
 #include <stdio.h>
 #include <stdlib.h>
 #include <string.h>
+#include <errno.h>
 #include <signal.h>
 #include <setjmp.h>
 #include <sys/mman.h>
@@ -27,12 +28,14 @@ static int in_array(const void *p) { const unsigned char *q = p; return q >= bas
 static int cmp_sort(const void *a, const void *b, void *c) {
     ncmp++; if (c != &ctx_cookie) bad_ctx = 1;
     if (!in_array(a) || !in_array(b)) { bad_ptr = 1; return 0; }
+    errno = ERANGE;      /* a consistent comparator may have side effects on errno (strtol saturating while parsing a key) */
     return (int)*(const unsigned char *)a - (int)*(const unsigned char *)b;
 }
 static int cmp_search(const void *k, const void *e, void *c) {
     ncmp++; if (c != &ctx_cookie) bad_ctx = 1;
     if (k != g_key) bad_ptr = 1;
     if (!in_array(e)) { bad_ptr = 1; return 0; }
+    errno = ERANGE;
     return (int)*(const unsigned char *)k - (int)*(const unsigned char *)e;
 }
 static char sigs[32][160], sigcase[32][400]; static long sigcnt[32]; static int nsig; static long n_arrays, n_searches, n_viol, n_cmp;
